@@ -233,12 +233,24 @@ Definition add_table_input (table hash range : str) : create_input :=
      ct_defs := (hash, bs "S") :: match range with [] => [] | _ => [(range, bs "S")] end;
      ct_pay_per_request := true; ct_throughput := true; ct_gsi := []; ct_lsi := [] |}.
 
+(* Table.CheckAttributeDefinition: the type of an attribute that is a key of the table or of one of its indexes
+   can not be changed *)
+Definition used_key_attrs (t : tbl) : list str :=
+  hashk (t_ks t) :: rangek (t_ks t) :: flat_map (fun ni => [hashk (ix_ks (snd ni)); rangek (ix_ks (snd ni))]) (t_indexes t).
+
+Definition defs_ok (t : tbl) (defs : list (str * str)) : bool :=
+  forallb (fun kv => match lookup (fst kv) (t_defs t) with
+                     | Some ty => negb (mem_str (fst kv) (used_key_attrs t)) || str_eqb ty (snd kv)
+                     | None => true
+                     end) defs.
+
 Definition update_table (c : client) (table : str) (defs : list (str * str)) (create : option index_def)
     (delete : option str) : client * obs :=
   if negb (v1_name_ok table) then (c, err_obs InvalidParam)
   else match lookup table (c_tables c) with
   | None => (c, err_obs NotFound)
   | Some t =>
+      if negb (defs_ok t defs) then (c, err_obs Validation) else
       let t1 := {| t_name := t_name t; t_ks := t_ks t; t_defs := set_defs (t_defs t) defs;
                    t_sorted := t_sorted t; t_data := t_data t; t_indexes := t_indexes t |} in
       let ppr := match lookup table (c_billing c) with Some b => b | None => false end in
